@@ -41,6 +41,7 @@ COMPILER_REPLAYS = {
     "u_rttypes": ["replay/c02/undefined_tuple.sh"],
     "u_swbind": ["replay/c02/switch_binding.sh"],
     "u_dynvt": ["replay/c02/dyn_reserved_method.sh"],
+    "u_dceblk": ["replay/c02/bare_builtin_stmt.sh"],
     "u_derive": ["replay/c18/prim_fields.sh"],
     "u_patlit": ["replay/c03/run.sh"],
     "u_annot": ["replay/c03/annotations.sh"],
